@@ -12,7 +12,7 @@ import (
 func init() {
 	register("C12", &propDef{
 		Title: "Failures are reported, never turned into silently partial results",
-		Rules: []func(*Checker){ruleC12Errors, ruleC12Illegal, ruleC12Whole, ruleC12Poison, ruleC12Closed, ruleC12Manifest, ruleC12Diags, ruleC12DiagCopy, ruleRootLink("C12.rootlink"), ruleTraceCalls("C12.calls")},
+		Rules: []func(*Checker){ruleC12Errors, ruleC12Illegal, ruleC12Whole, ruleC12Poison, ruleC12Closed, ruleC12Manifest, ruleC12Diags, ruleC12DiagCopy, ruleRootLink("C12.rootlink"), ruleTraceCalls("C12.calls"), ruleLockBalanced("C12.balanced"), ruleC12DiagSource},
 		NotDecided: []string{
 			"behaviour at a given byte offset; what archive/tar and compress/gzip report on truncation (library)",
 			"which error text is produced",
@@ -1791,4 +1791,177 @@ func (p *Prog) filterAllowed(fn *ssa.Function, ev ssa.Value, cn, filter string, 
 		}
 	}
 	return n > 0
+}
+
+// C12.diagsource — how finder diagnostics are wrapped and how the error
+// severity is recognised.
+func ruleC12DiagSource(c *Checker) {
+	const R = "C12.diagsource"
+	c.rule(R, "(a) Diagnostics.HasErrors answers true exactly on the equal edge of a comparison of an element's Severity() with the error constant. (b) The per-package wrapper returns its receiver unchanged only on the edge where it is empty; otherwise every element of what it returns is the wrapping type. (c) In the wrapper's Source(), for each pointer field of the result (Subject, Context): the pointer is dereferenced only past its not-nil edge, and on the edge where it is not nil and its file name is a valid sub-path the field is replaced by a copy whose Filename comes from RemotePackage.SourceAddr — so the tracer and the caller see a source address, not a path relative to a package they cannot identify.", 6)
+	p := c.P
+	// (a)
+	if fn := p.Fn(bundlePkg, "Diagnostics.HasErrors"); fn == nil {
+		c.anchorMissing(R, "Diagnostics.HasErrors")
+	} else {
+		isSev := func(v ssa.Value, op token.Token) bool {
+			bo, ok := v.(*ssa.BinOp)
+			if !ok || bo.Op != op {
+				return false
+			}
+			k, isC := constInt(bo.Y)
+			cl, isCall := bo.X.(*ssa.Call)
+			return isC && k == 'E' && isCall && cl.Call.IsInvoke() && cl.Call.Method.Name() == "Severity"
+		}
+		eqT, _ := condEdges(fn, func(v ssa.Value) bool { return isSev(v, token.EQL) })
+		_, neF := condEdges(fn, func(v ssa.Value) bool { return isSev(v, token.NEQ) })
+		isErr := append(eqT, neF...)
+		nT := 0
+		for i, r := range returnsOf(fn) {
+			b, isC := constBool(r.Results[0])
+			if !isC {
+				c.fail(R, p.FuncName(fn), fmt.Sprintf("return %d", i), p.Pos(r.Pos()), "HasErrors returns a computed value the rule does not follow")
+				continue
+			}
+			if b {
+				nT++
+				c.check(len(isErr) > 0 && guarded(r.Block(), isErr), R, p.FuncName(fn), fmt.Sprintf("return true %d", i), p.Pos(r.Pos()), "past Severity() == DiagError", "HasErrors answers true on a path where the element's severity was not found to be the error severity (test inverted or gone): a warning disables the builder, and a failed fetch does not — Close then hands out a bundle from a failed build")
+			} else {
+				c.check(len(isErr) == 0 || !guarded(r.Block(), isErr), R, p.FuncName(fn), fmt.Sprintf("return false %d", i), p.Pos(r.Pos()), "not on the error edge", "HasErrors answers false on the edge where an error-severity element was found")
+			}
+		}
+		c.check(nT > 0, R, p.FuncName(fn), "can answer true", p.Pos(fn.Pos()), fmt.Sprintf("%d return(s) of true", nT), "HasErrors never answers true: no failure ever disables the builder")
+	}
+	// (b)
+	if fn := p.Fn(bundlePkg, "Diagnostics.inRemoteSourcePackage"); fn == nil {
+		c.anchorMissing(R, "Diagnostics.inRemoteSourcePackage")
+	} else if len(fn.Params) > 0 {
+		recv := fn.Params[0]
+		empties := lenZeroEdges(fn, func(v ssa.Value) bool { return v == ssa.Value(recv) })
+		for i, r := range returnsOf(fn) {
+			if canon(r.Results[0]) == ssa.Value(recv) {
+				c.check(len(empties) > 0 && guarded(r.Block(), empties), R, p.FuncName(fn), fmt.Sprintf("return %d of the receiver itself", i), p.Pos(r.Pos()), "only when it is empty", "the finder's diagnostics are returned unwrapped on a path where there may be some: their file names stay relative to a package the reader cannot identify")
+				continue
+			}
+			wrapped := false
+			for w := range p.backSlice(r.Results[0], 0) {
+				if mi, ok := w.(*ssa.MakeInterface); ok {
+					if isNamedT(mi.X.Type(), "diagnosticInSourcePackage") {
+						wrapped = true
+					}
+				}
+			}
+			eachInstr(fn, func(in ssa.Instruction) {
+				st, ok := in.(*ssa.Store)
+				if !ok {
+					return
+				}
+				ia, ok := st.Addr.(*ssa.IndexAddr)
+				if !ok || canon(ia.X) != canon(r.Results[0]) {
+					return
+				}
+				if mi, ok := st.Val.(*ssa.MakeInterface); ok && isNamedT(mi.X.Type(), "diagnosticInSourcePackage") {
+					wrapped = true
+				}
+			})
+			c.check(wrapped, R, p.FuncName(fn), fmt.Sprintf("return %d wraps", i), p.Pos(r.Pos()), "elements of the wrapping type", "what is returned is not built from wrapped elements")
+		}
+	}
+	// (c)
+	fn := p.Fn(bundlePkg, "diagnosticInSourcePackage.Source")
+	if fn == nil {
+		c.anchorMissing(R, "diagnosticInSourcePackage.Source")
+		return
+	}
+	name := p.FuncName(fn)
+	var resT *types.Struct
+	if fn.Signature.Results().Len() == 1 {
+		resT, _ = fn.Signature.Results().At(0).Type().Underlying().(*types.Struct)
+	}
+	if resT == nil {
+		c.fail(R, name, "result type", p.Pos(fn.Pos()), "Source() does not return a struct")
+		return
+	}
+	for fi := 0; fi < resT.NumFields(); fi++ {
+		f := resT.Field(fi)
+		if _, isPtr := f.Type().Underlying().(*types.Pointer); !isPtr {
+			continue
+		}
+		isLoadOfF := func(v ssa.Value) bool {
+			u, ok := v.(*ssa.UnOp)
+			if !ok || u.Op != token.MUL {
+				return false
+			}
+			fa, ok := u.X.(*ssa.FieldAddr)
+			return ok && fieldOf(fa) == f
+		}
+		isNilCmp := func(v ssa.Value, op token.Token) bool {
+			bo, ok := v.(*ssa.BinOp)
+			return ok && bo.Op == op && ((isLoadOfF(bo.X) && isNilConst(bo.Y)) || (isLoadOfF(bo.Y) && isNilConst(bo.X)))
+		}
+		neT, _ := condEdges(fn, func(v ssa.Value) bool { return isNilCmp(v, token.NEQ) })
+		_, eqF := condEdges(fn, func(v ssa.Value) bool { return isNilCmp(v, token.EQL) })
+		nonNil := append(neT, eqF...)
+		validT, _ := condEdges(fn, func(v ssa.Value) bool {
+			cl, ok := v.(*ssa.Call)
+			return ok && cl.Common().StaticCallee() != nil && cl.Common().StaticCallee().Name() == "ValidSubPath"
+		})
+		// dereferences
+		derefOK := true
+		eachInstr(fn, func(in ssa.Instruction) {
+			var ptr ssa.Value
+			switch x := in.(type) {
+			case *ssa.UnOp:
+				if x.Op == token.MUL && isLoadOfF(x.X) {
+					ptr = x.X
+				}
+			case *ssa.FieldAddr:
+				if isLoadOfF(x.X) {
+					ptr = x.X
+				}
+			}
+			if ptr != nil && !(len(nonNil) > 0 && guarded(in.Block(), nonNil)) {
+				derefOK = false
+			}
+		})
+		c.check(derefOK, R, name, f.Name()+" dereferenced only when not nil", p.Pos(fn.Pos()), "every dereference sits past the not-nil edge", "the "+f.Name()+" range of a finder's diagnostic is dereferenced on a path where it may be nil (the test is gone or inverted): a diagnostic without that range makes Source() panic")
+		// replacement
+		replaced := false
+		why := "the field is never replaced"
+		eachInstr(fn, func(in ssa.Instruction) {
+			st, ok := in.(*ssa.Store)
+			if !ok {
+				return
+			}
+			fa, ok := st.Addr.(*ssa.FieldAddr)
+			if !ok || fieldOf(fa) != f {
+				return
+			}
+			al, ok := st.Val.(*ssa.Alloc)
+			if !ok {
+				why = "the field is set to something other than a fresh copy"
+				return
+			}
+			fromAddr := false
+			eachAllocFieldStore(al, func(s2 *ssa.Store) {
+				if fa2, ok := s2.Addr.(*ssa.FieldAddr); ok && fieldOf(fa2) != nil && fieldOf(fa2).Name() == "Filename" {
+					for w := range p.backSlice(s2.Val, 0) {
+						if cl, ok := w.(*ssa.Call); ok && cl.Common().StaticCallee() != nil && cl.Common().StaticCallee().Name() == "SourceAddr" {
+							fromAddr = true
+						}
+					}
+				}
+			})
+			switch {
+			case !fromAddr:
+				why = "the copy's Filename is not set from RemotePackage.SourceAddr"
+			case !(len(nonNil) > 0 && guarded(st.Block(), nonNil)):
+				why = "the replacement does not sit on the not-nil edge"
+			case !(len(validT) > 0 && guarded(st.Block(), validT)):
+				why = "the replacement is not guarded by ValidSubPath (SourceAddr panics for other names)"
+			default:
+				replaced = true
+			}
+		})
+		c.check(replaced, R, name, f.Name()+" rewritten to a source address", p.Pos(fn.Pos()), "a copy with Filename = pkg.SourceAddr(name).String() replaces it on the not-nil, valid-name edge", "the "+f.Name()+" range keeps the finder's package-relative file name ("+why+"): the tracer and the caller are pointed at a path that means nothing outside the finder")
+	}
 }
